@@ -58,6 +58,7 @@ pub fn all_kinds() -> Vec<(KindChoice, u32)> {
         (Fixed(Kind::LeafLock), 1),
         (Fixed(Kind::LeafStatic), 1),
         (Fixed(Kind::SetHolder), 1),
+        (Fixed(Kind::Bag), 2),
         (Slice, 2),
         (Swh, 2),
         (Lay, 2),
